@@ -90,6 +90,11 @@ def draw_policy(rng, n_workers):
         return {"kind": "pct", "drops": sorted(rng.randrange(1, 400) for _ in range(d - 1))}
     if r < 0.70:
         return {"kind": "sticky", "p": rng.choice([0.5, 0.8, 0.95])}
+    if r < 0.74:
+        # one worker is descheduled for a long time (swapped out, stopped): everything the others finish
+        # meanwhile has to wait in the ordered writer
+        lo = rng.randrange(5, 80)
+        return {"kind": "starve", "victim": rng.randrange(2, n_workers + 2), "window": [lo, lo + 6000]}
     if r < 0.90:
         lo = rng.randrange(0, 60)
         # victim: 0 = the collecting main process, 1 = the reader, 2.. = workers
